@@ -180,6 +180,7 @@ func (e *pipeEnd) readToken(n int) ([]byte, error) {
 type fakeML struct {
 	n             *node
 	uuid, tpt     uint64
+	rtpt          uint64 // the transport uuid under which the OTHER end mounted the link (0: unknown)
 	local, remote peer.ID
 	stub          bool // link to the third peer: nobody on the other end
 	// open, when set, is OpenMountedStream of this link (hub engine)
@@ -188,7 +189,12 @@ type fakeML struct {
 
 func (f *fakeML) GetLinkUUID() uint64            { return f.uuid }
 func (f *fakeML) GetTransportUUID() uint64       { return f.tpt }
-func (f *fakeML) GetRemoteTransportUUID() uint64 { return f.tpt + 1000 }
+func (f *fakeML) GetRemoteTransportUUID() uint64 {
+	if f.rtpt != 0 {
+		return f.rtpt
+	}
+	return f.tpt + 1000
+}
 func (f *fakeML) GetLocalPeer() peer.ID          { return f.local }
 func (f *fakeML) GetRemotePeer() peer.ID         { return f.remote }
 func (f *fakeML) OpenMountedStream(ctx context.Context, pid protocol.ID, o stream.OpenOpts) (link.MountedStream, error) {
@@ -273,6 +279,11 @@ type dirState struct {
 	di    directive.Instance
 	ref   directive.Reference
 	early bool // engine's own notion: its hash had never been on this side's wire when it was added
+	// late: when the directive was added, a solicited stream for its hash had ALREADY been handed to
+	// resolveMatch on this side (opened by this side, or arrived here). Only such a solicitation can
+	// be left unmatched by the matched-once rule (known finding solicit-matched-once); every other
+	// one is present when the single stream of its hash is resolved.
+	late bool
 	n     *node
 }
 
@@ -350,6 +361,7 @@ type world struct {
 	streams  []*streamRec
 	arriving [2][]int // stream ids opened towards side i, not yet dispatched
 	viol     []string // protocol violations seen by the fake link (wrong opener, …)
+	linkGone bool     // the removeLink probe ran: the control stream is closed on purpose
 	stubCtrl int
 }
 
@@ -447,6 +459,23 @@ type cfg struct {
 	lateLink   bool // the higher side learns the link from the control stream, not from EstablishLinkWithPeer
 	stub       bool // both nodes also have a link to a third peer
 	removeLink bool // end with removeLink + unknown-link probe
+	ambig      bool // both halves of the separator-ambiguous pair (and the un-split string) on each node
+}
+
+// wireCap: how many hashes ONE exchange message can carry — a message is at most maxMessageSize
+// bytes and every hash takes 32 bytes plus a 2-byte field header (tag, length).
+func wireCap() uint32 { return link_solicit_controller.VerifMaxMessageSize() / 34 }
+
+// effMax: the limit a controller configured with maxHashes = m works with: a list longer than one
+// message can carry would be rejected by the peer's reader, so the limit is at most wireCap.
+func effMax(m uint32) uint32 {
+	if m == 0 {
+		m = 256
+	}
+	if m > wireCap() {
+		return wireCap()
+	}
+	return m
 }
 
 func (e *engine) newWorld(c cfg) (*world, error) {
@@ -458,10 +487,10 @@ func (e *engine) newWorld(c cfg) (*world, error) {
 			cancel()
 			return nil, err
 		}
-		n := &node{w: w, side: i, name: sideName(i), tb: tb, maxH: c.max[i], dirs: map[int]*dirState{}, gone: map[int]*dirState{},
+		n := &node{w: w, side: i, name: sideName(i), tb: tb, maxH: effMax(c.max[i]), dirs: map[int]*dirState{}, gone: map[int]*dirState{},
 			valStream: map[link_solicit.SolicitMountedStream]int{}, valTaken: map[link_solicit.SolicitMountedStream]int{},
 			valEnd: map[link_solicit.SolicitMountedStream]*pipeEnd{}, accepted: map[[2]any]bool{}}
-		n.ml = &fakeML{n: n, uuid: c.uuid, tpt: c.tpt[i], local: c.peers[i], remote: c.peers[1-i]}
+		n.ml = &fakeML{n: n, uuid: c.uuid, tpt: c.tpt[i], rtpt: c.tpt[1-i], local: c.peers[i], remote: c.peers[1-i]}
 		n.stubML = &fakeML{n: n, uuid: c.uuid + 1 + uint64(i), tpt: c.tpt[i], local: c.peers[i], remote: c.pC, stub: true}
 		n.lc = &linkCtrl{rhs: map[peer.ID]directive.ResolverHandler{}}
 		if _, err := tb.Bus.AddController(ctx, n.lc, nil); err != nil {
